@@ -88,25 +88,25 @@ Theorem C07fn_avg_float :
 Proof. exact avgf_all. Qed.
 Print Assumptions C07fn_avg_float.
 
-(* AVG over Decimal(p, scale) (native i128 accumulator), scale >= 0: a plan that succeeds returns the exact
-   average of the decimal VALUES u / 10^scale *)
-Theorem C07fn_avg_decimal_never_wrong : forall scale, (0 <= scale)%Z ->
+(* AVG over Decimal(p, scale) (native i128 accumulator), ANY scale: a plan that succeeds returns the exact
+   average of the decimal VALUES (u / 10^scale, resp. u * 10^(-scale) for a negative scale) *)
+Theorem C07fn_avg_decimal_never_wrong : forall scale,
   never_wrong (avg_dec scale) (spec_avg_dec scale) fres_eq /\ state_determined (avg_dec scale).
 Proof. exact avg_dec_never_wrong. Qed.
 Print Assumptions C07fn_avg_decimal_never_wrong.
 
-(* the statement without `0 <= scale` is FALSE for the faithful model: AvgDecimal::bind takes |scale|
-   (finding avg-decimal-negative-scale): avg(1200 :: Decimal(5,-2)) = 0.12 *)
-Theorem C07fn_avg_decimal_negative_scale_refuted :
-  result_tree (avg_dec (-2)) (Leaf [Some 12%Z]) = Ok (FRat (3 # 25)) /\
-  spec_avg_dec (-2) [12%Z] = FRat (inject_Z 1200 / 1).
-Proof. exact avg_dec_negative_scale_refuted. Qed.
-Print Assumptions C07fn_avg_decimal_negative_scale_refuted.
+(* negative scales (finding avg-decimal-negative-scale, fixed by ae73b43ce): avg over the Decimal(5,-2)
+   values 1200, 3400 is 2300 *)
+Theorem C07fn_avg_decimal_negative_scale :
+  result_tree (avg_dec (-2)) (Node (Leaf [Some 12%Z]) (Leaf [Some 34%Z])) = Ok (FRat (inject_Z 2300)) /\
+  fres_eq (spec_avg_dec (-2) [12%Z; 34%Z]) (FRat (inject_Z 2300)).
+Proof. exact avg_dec_negative_scale. Qed.
+Print Assumptions C07fn_avg_decimal_negative_scale.
 
-Theorem C07fn_avg_decimal_total_when_bounded : forall k t xs,
+Theorem C07fn_avg_decimal_total_when_bounded : forall scale t xs,
   Permutation (nn (flatten t)) (nn xs) -> (abs_sum (nn xs) < 2 ^ 127)%Z ->
-  run_tree (avg_d k) t = run_chunk (avg_d k) xs /\ exists s, run_tree (avg_d k) t = Ok s.
-Proof. exact avgd_total_when_bounded. Qed.
+  run_tree (avg_dec scale) t = run_chunk (avg_dec scale) xs /\ exists s, run_tree (avg_dec scale) t = Ok s.
+Proof. exact avg_dec_total_when_bounded. Qed.
 Print Assumptions C07fn_avg_decimal_total_when_bounded.
 
 (* the sequential run over three Decimal128(38,0) values with a representable average panics (dev
@@ -114,32 +114,20 @@ Print Assumptions C07fn_avg_decimal_total_when_bounded.
    (finding avg-dec-i128-overflow) *)
 Theorem C07fn_avg_decimal_split_invariant_refuted :
   exists t xs, Permutation (nn (flatten t)) (nn xs) /\
-    result_tree (avg_d 0) t = Ok (FRat (inject_Z ((10 ^ 38 - 1) / 3))) /\ run_chunk (avg_d 0) xs = Panic.
+    result_tree (avg_dec 0) t = Ok (FRat (inject_Z ((10 ^ 38 - 1) / 3))) /\ run_chunk (avg_dec 0) xs = Panic.
 Proof. exact avgd_split_invariant_refuted. Qed.
 Print Assumptions C07fn_avg_decimal_split_invariant_refuted.
 
 (* ---------------------------------------------------------------- var_pop, var_samp, stddev_pop, stddev_samp *)
-(* Welford update + pairwise combination (Chan et al.) = sum of squared deviations from the mean of the
+(* Welford update + pairwise combination (Chan et al., mean advanced incrementally since 2ad5a541a; the
+   previous form is proved equal in exact arithmetic: proofs old_variance_merge_equivalent,
+   old_covariance_merge_equivalent) = sum of squared deviations from the mean of the
    WHOLE input divided by n (pop) / n - 1 (samp); NULL on no rows, NULL on one row for the sample forms *)
 Theorem C07fn_variance : forall k,
   fold_correct (var_agg k) (spec_var k) fres_eq /\ split_invariant (var_agg k) /\
   merge_homomorphism (var_agg k) /\ empty_neutral (var_agg k) /\ total (var_agg k).
 Proof. exact var_homomorphism. Qed.
 Print Assumptions C07fn_variance.
-
-(* the repair proposed for finding const-column-variance-lost-under-merge (v_merge_alt / c_merge_alt in
-   model/AggFn.v: the mean advanced by a multiple of the difference of the means) computes, in exact
-   arithmetic, the same state as the source's merge on every pair of reachable states: all statements of
-   this file carry over to the repaired code *)
-Theorem C07fn_variance_merge_repair_equivalent : forall k t1 t2 a b,
-  run_tree (var_agg k) t1 = Ok a -> run_tree (var_agg k) t2 = Ok b -> v_merge_alt a b = v_merge a b.
-Proof. exact variance_merge_repair_equivalent. Qed.
-Print Assumptions C07fn_variance_merge_repair_equivalent.
-
-Theorem C07fn_covariance_merge_repair_equivalent : forall k t1 t2 a b,
-  run_tree (covar_agg k) t1 = Ok a -> run_tree (covar_agg k) t2 = Ok b -> c_merge_alt a b = c_merge a b.
-Proof. exact covariance_merge_repair_equivalent. Qed.
-Print Assumptions C07fn_covariance_merge_repair_equivalent.
 
 (* ---------------------------------------------------------------- covar_pop, covar_samp, corr, regr_* *)
 Theorem C07fn_covariance : forall k,
